@@ -85,6 +85,9 @@ func failureClass(stderr string) string {
 func runCase(run *ev.Run, idx int, bin, scratch string, verbose bool) {
 	rng := ev.Rand(fmt.Sprintf("c18/case/%d", idx))
 	c := genCase(idx, rng)
+	if c.Twin {
+		run.Count("cases_with_one_source_tag_mirrored_for_two_platforms", 1)
+	}
 	defer c.W.Close()
 	dir := filepath.Join(scratch, fmt.Sprintf("case%05d", idx))
 	_ = os.MkdirAll(dir, 0o755)
@@ -192,6 +195,9 @@ func runCase(run *ev.Run, idx int, bin, scratch string, verbose bool) {
 		}
 		if e.Platform != "" {
 			feat["platform"] = true
+			if c.Twin {
+				feat["platform-twin"] = true
+			}
 		}
 		if len(e.Set.MediaTypes) > 0 || len(c.Cfg.Defaults.MediaTypes) > 0 {
 			feat["media-types"] = true
